@@ -14,4 +14,6 @@ TARGETS = {
     'coro-nost': dict(cfg='fib-nost', src=['harness/coro.cpp'], cflags=f'-O1 -g1 {ASAN}', libs='-lrapidcheck'),
     'pipeline': dict(cfg='off', src=['harness/pipeline.cpp'], cflags=f'-O0 -g0 {ASAN}', libs='-lrapidcheck'),
     'allocbounds': dict(cfg='off', src=['harness/allocbounds.cpp'], cflags=f'-O0 -g0 {ASAN}', libs='-lrapidcheck'),
+    'races-off': dict(cfg='tsan-off', src=['harness/races.cpp'], cflags=f'-O1 -g1 {TSAN}', libs='-lrapidcheck'),
+    'races-thr': dict(cfg='tsan-thr', src=['harness/races.cpp'], cflags=f'-O1 -g1 {TSAN}', libs='-lrapidcheck'),
 }
